@@ -248,6 +248,9 @@ func c08(tier string) int {
 		c08Uniform(run, &trans)
 	}
 	trans += c08Soak(run, u, gen, la, tier)
+	// ... and through the bastion endpoint: a flood of pushed-back requests
+	// must not keep an honest step out once the rate is respected again.
+	c10RateRecovery(run, "C08")
 	run.Set("states", len(statesSeen))
 	run.Set("transitions", trans)
 	run.Set("traces_validated_against_impl", trans)
